@@ -172,7 +172,8 @@ class Parser:
             return (str(v), "nat")
         if tok in ("true", "false"):
             return (tok, "bool")
-        if tok in MACROS:
+        if tok in MACROS or (tok + "!" in MACROS and self.peek() == "("):
+            tok = tok if tok in MACROS else tok + "!"
             a = self.args()
             if len(a) != 1 or a[0][1] != "u64":
                 raise TranslateError("macro argument")
